@@ -233,6 +233,8 @@ def streams(rng, tier):
             for n in (0, 23, 255, 2**16 - 1, 2**32 - 1, 2**63 - 1, 2**63, 2**64 - 1):
                 if gen.fits(width, n):
                     rops.append("display " + gen.head(b0 >> 5, n, width).hex() if (b0 & 31) == 0 else "display " + bytes([b0]).hex() + gen.rand_bytes(rng, 8).hex())
+    for n in list(range(0, 70)) + [96, 128, 256, 1024]:
+        rops.append("display " + (gen.head(2, n) + bytes(n)).hex()); rops.append("display " + (gen.head(3, n) + b"a" * n).hex())
     rops = list(dict.fromkeys(rops))
     def judge_render(op, impl, model, spec):
         if impl.startswith("overflow") or impl in ("panic", "fmt-error") or impl.startswith("crash"):
